@@ -3,7 +3,7 @@
    is read through the closing primitives, was consumed.  That every consumed identifier / literal is also STORED in the tree is
    not a theorem here (it would be a second sweep over the parser model); it is judged on the implementation by unique renaming. *)
 From Coq Require Import List NArith ZArith Bool String Ascii Lia.
-Require Import Base.Common Gen.LexTable Lex.Model Cur.Model Cur.Proofs Tree.Value Gen.Static Parse.Prim Parse.Model Parse.C08Facts Cur.Split Parse.SplitFacts Parse.Suffix Stmt.C06Facts Print.Model.
+Require Import Base.Common Gen.LexTable Lex.Model Cur.Model Cur.Proofs Tree.Value Gen.Static Parse.Prim Parse.Model Parse.C08Facts Cur.Split Parse.SplitFacts Parse.SepFacts Parse.Suffix Stmt.C06Facts Print.Model.
 Import ListNotations.
 Open Scope string_scope.
 Open Scope list_scope.
@@ -38,6 +38,14 @@ Theorem C08_split_group_leftover_rejected : forall (item : toks -> PR) segs1 sg 
   each_closed item (segs1 ++ sg :: segs2) = Err ParseErr.
 Proof. exact split_group_leftover_rejected. Qed.
 
+(* 2d. the separated-list loop `item (sep item)*` (the `while scanner.search_and_move_one_type_str(sep)` loops), ANY item parser: when it
+   returns, no separator follows -- a list is read to its end, a trailing `, item` cannot be left behind by the loop -- and the first
+   item's value heads the result *)
+Theorem C08_list_read_to_end : forall (item : toks -> PR) sep ts vs rest,
+  sep_list item sep ts = Ok (vs, rest) ->
+  peek_str sep rest = false /\ exists v ts1 more, item ts = Ok (v, ts1) /\ vs = v :: more.
+Proof. exact sep_list_reads_to_end. Qed.
+
 (* 3. parse_statements accepts only when the whole token list has been consumed: every accepted run of the statement loop ends with
    an empty remainder (for any number of statements, any fuel, any dialect) *)
 Theorem C08_statements_consume_everything : forall n fuel d ts acc vs, statements_loop n fuel d ts acc = Ok vs -> loop_consumed n fuel d ts = true.
@@ -63,6 +71,7 @@ Print Assumptions C08_close_model.
 Print Assumptions C08_segments_fully_consumed.
 Print Assumptions C08_split_group_accounted.
 Print Assumptions C08_split_group_leftover_rejected.
+Print Assumptions C08_list_read_to_end.
 Print Assumptions C08_statements_consume_everything.
 Print Assumptions C08_remainder_is_suffix.
 Print Assumptions C08_literal_printed_verbatim.
